@@ -460,6 +460,15 @@ def build(
         else:
             with tick_tag.open("w+", encoding="utf-8") as file:
                 dump(tick_json, file, indent=4)
+    elif not _is_virtual and tick_tag.is_file():
+        # A tick tag that outlives the deletion (inside a #static folder, brought by #copy, or left behind when the
+        # namespace folder was removed by hand) must not keep naming the tick function this datapack no longer has:
+        # Minecraft drops a function tag that refers to a missing function.
+        with tick_tag.open("r", encoding="utf-8") as file:
+            old_values = loads(file.read(), strict=False).get("values")
+        if old_values != tick_json["values"]:
+            with tick_tag.open("w+", encoding="utf-8") as file:
+                dump(tick_json, file, indent=4)
 
     for func_path, func in datapack.functions.items():
         namespace = func_path.split("/")[0]
